@@ -7,7 +7,7 @@ SD=$1; shift
 cd /repo || exit 2
 if ! git diff --quiet; then echo "repo dirty"; exit 2; fi
 echo "== demo on clean tree"; PYTHONPATH=/repo /venv/bin/python $SD/demo.py >/dev/null 2>&1; echo "clean demo rc=$?"
-git apply --3way $SD/patch.diff 2>/dev/null || git apply $SD/patch.diff || { echo "patch does not apply"; git checkout -- . ; exit 2; }
+git apply $SD/patch.diff || { echo "patch does not apply"; git reset -q --hard HEAD; exit 2; }
 git reset -q
 echo "== suite with patch"; /venv/bin/python -m pytest -q -p no:cacheprovider -n 8 2>&1 | tail -1
 echo "== demo with patch"; PYTHONPATH=/repo /venv/bin/python $SD/demo.py >/dev/null 2>&1; echo "patched demo rc=$?"
